@@ -24,6 +24,7 @@ class Verifier:
         self.lib = libspec.Lib(self)
         self.objects = Objects(self)
         self._ufs = {}
+        self.nonlinear = "uf"      # 'uf': products/quotients of symbolic terms are uninterpreted; 'nra': real arithmetic
         try:
             import numpy
             self.numpy_version = numpy.__version__
